@@ -5,6 +5,7 @@ import SeqVerif.Model.C03Ids
 import SeqVerif.Model.C03Tokens
 import SeqVerif.Model.C03Frac
 import SeqVerif.Model.C03Search
+import SeqVerif.Model.C03Docs
 import Std.Data.HashMap
 /-!
 Driver for C03.  Lists: `,` inside a posting list / chunk, `;` between chunks / tokens, `|` between fields / blocks,
@@ -25,6 +26,10 @@ Driver for C03.  Lists: `,` inside a posting list / chunk, `;` between chunks / 
   tokens.table <rbs> <base> <fields>               -> ok entries=<field:startIndex:startTID:blockIndex:valCount:min:max;...> vals=<hex,...> | panic
   tokens.select <hint> <minVal> <maxVals>          -> ok <l> <r>
   frac.index <mids> <rids> <allDocs> <posting> <minLID> <maxLID>  -> ok ids=<mid:rid,...> index=<...> asc=<lids> desc=<lids>
+  docs.write <minBlockSize> <block lens> <ids> <docs hex,...>   (writeDoc for every pair, then Flush)
+        -> ok offsets=<...> positions=<mid:rid=pos,... newest entry per id, request order> read=<x hex per id> | panic
+  docs.group <positions>                           -> ok <block:slot@off,slot@off|...>
+  docs.fetch <offsets> <file: off=hex;...> <positions>  -> ok <xhex or nil per position> | err
   frac.search <mids> <rids> <allDocs> <fields: xTOK=lid,lid;...|...> <idsBlock> <lidCap> <rbs> <query rpn: t<tid>,&,|,!> <from> <to> <rev> <limit> <interval>
         -> ok total=<n> ids=<mid:rid,...> hist=<bucket:count,...>  (sealed and active model answers agree) | DIFF ... | panic
 -/
@@ -242,6 +247,34 @@ def step (line : String) : String :=
           if x = y then s!"ok {x}" else s!"DIFF sealed[{x}] active[{y}]"
       | _, _, _, _, _ => "bad-op"
     | _, _, _, _, _, _, _, _ => "bad-op"
+  | ["docs.write", minBS, lens, ids, docs] =>
+    match minBS.toNat?, natList? lens, parseIDs ids, (splitList docs).mapM xhex? with
+    | some minBS, some lens, some ids, some docs =>
+      let clen := fun (i : Nat) (_ : List Nat) => lens.getD i 1
+      let w := (ids.zip docs).foldl (fun (w : Option DW) p => w.bind (fun w => writeDoc clen minBS w p.1 p.2)) (some DW.init)
+      match w.map (flushDW clen) with
+      | none => "panic"
+      | some w =>
+        let uniq := ids.eraseDups
+        let ps := uniq.map fun id => s!"{fmtID id}={fmtOptNat (lookupPos w.positions id)}"
+        let rd := uniq.map fun id => match (lookupPos w.positions id).bind (readAt w.blockOffsets w.file) with | some d => fmtX d | none => "nil"
+        s!"ok offsets={fmtNats w.blockOffsets} positions={fmtList id ps} read={fmtList id rd}"
+    | _, _, _, _ => "bad-op"
+  | ["docs.group", ps] =>
+    match natList? ps with
+    | some ps =>
+      let g := groupDocsOffsets ps
+      s!"ok {fmtList (fun (p : Nat × List (Nat × Nat)) => s!"{p.1}:{fmtList (fun (x : Nat × Nat) => s!"{x.1}@{x.2}") p.2}") g "|"}"
+    | none => "bad-op"
+  | ["docs.fetch", offs, file, ps] =>
+    match natList? offs, (splitList file ";").mapM (fun e => match e.splitOn "=" with
+        | [o, h] => do pure ((← o.toNat?), (← xhex? h))
+        | _ => none), natList? ps with
+    | some offs, some file, some ps =>
+      match indexFetch offs file ps with
+      | some res => s!"ok {fmtList (fun (d : Option DocB) => match d with | some d => fmtX d | none => "nil") res}"
+      | none => "err"
+    | _, _, _ => "bad-op"
   | _ => "bad-op"
 
 def main : IO Unit := SV.Proto.main step
